@@ -312,3 +312,20 @@ def search_cache_fns(facts):
         elif any('HashMap' in c and (c.endswith('::get') or c.endswith('::contains_key')) for c in calls):
             probe.append(name)
     return (probe[0] if len(probe) == 1 else None), (store[0] if len(store) == 1 else None)
+
+
+def import_rules(ctx, new_rule, fns, why, keep=None, floor=1):
+    """Run rule functions of another property on a scratch context and re-state their obligations under `new_rule` of this property
+    (the imported clause is a necessary condition here as well; the reason is given in `why`)."""
+    sub = type(ctx)(ctx.prop, ctx.tier, ctx.facts, ctx.facts_info, ctx.seed)
+    for fn in fns:
+        fn(sub)
+    n = 0
+    for s in sub.samples:
+        if keep is not None and not keep(s):
+            continue
+        n += 1
+        ctx.ob(new_rule, s['function'], s['instance'], s['ok'], found=s['found'], expected=s['expected'], why=why,
+               nontrivial='floor' not in s['instance'])
+    ctx.floor(new_rule, 'obligations imported', n, floor)
+    return n
